@@ -3,7 +3,7 @@
 From PV Require Import Base.Prelude Base.Slice Model.EncodeBase Model.Encode Model.EncodeCompose Model.EncodeDHCP
      Spec.EncodeRef Spec.EncodeRefDHCP
      Proofs.Encode Proofs.EncodeIP4 Proofs.EncodeEther Proofs.EncodeMisc Proofs.EncodeCompose Proofs.EncodeDHCP
-     Proofs.EncodeDNS Proofs.EncodeIP6Frame.
+     Proofs.EncodeDNS Proofs.EncodeIP6Frame Proofs.EncodeRound3.
 Open Scope N_scope.
 
 (* EncodeEther: for every buffer of capacity >= 14 (any length, any contents), every
@@ -362,22 +362,13 @@ Print Assumptions C03_dhcp4_options_rt.
 
 (* ---------------------------------------------------------------- *)
 (* DNS query.  For every transaction id, flags, question type and every name given as a list of
-   labels of 1..63 bytes (wire form at most 255 bytes): header getters and DecodeQuestion return
-   the supplied values, and the RFC 1035 reference decoder finds exactly this question with
-   nothing trailing.  The root name (no labels) is the recorded finding dnsq-root-name:
-   DecodeQuestion rejects the well-formed 17-byte query (layer_dns.go belongs to the DNS cluster). *)
-Theorem C03_dnsquery_refuted :
-  exists p, encode_dns_query 1 256 (wire_of_labels []) 1 = Ok p /\
-            known_C03_dns_root_name [] = true /\
-            dns_decode_question p = Err EParseFrame /\
-            ref_dns_query (view p) <> None.
-Proof. exact dnsquery_root_refuted. Qed.
-Print Assumptions C03_dnsquery_refuted.
-
-Theorem C03_dnsquery_rt_partial : forall id fl ls qt,
+   labels of 1..63 bytes (wire form at most 255 bytes; the empty list is the root name): header
+   getters and DecodeQuestion return the supplied values, and the RFC 1035 reference decoder
+   finds exactly this question with nothing trailing.  (The root name was rejected by
+   DecodeQuestion - finding dnsq-root-name - until repo commit 8b21b8e of the DNS cluster.) *)
+Theorem C03_dnsquery_rt : forall id fl ls qt,
   id < 65536 -> fl < 65536 -> qt < 65536 -> labels_ok ls -> Forall bytes_ok ls ->
   (length (wire_of_labels ls) <= 255)%nat ->
-  known_C03_dns_root_name ls = false ->
   let name := wire_of_labels ls in
   exists p,
     encode_dns_query id fl name qt = Ok p /\
@@ -389,15 +380,21 @@ Theorem C03_dnsquery_rt_partial : forall id fl ls qt,
     ref_dns_query (view p) =
       Some {| rq_id := id; rq_flags := fl; rq_qd := 1; rq_an := 0; rq_ns := 0; rq_ar := 0;
               rq_labels := ls; rq_type := qt; rq_class := 1; rq_trailing := [] |}.
-Proof. exact dnsquery_rt_partial. Qed.
-Print Assumptions C03_dnsquery_rt_partial.
+Proof. exact dnsquery_rt. Qed.
+Print Assumptions C03_dnsquery_rt.
 
 Example C03_dnsquery_rt_ex :
   let ls := [[119;119;119]; [101;120;97;109;112;108;101]; [99;111;109]] in
-  labels_ok ls /\ known_C03_dns_root_name ls = false /\ (length (wire_of_labels ls) <= 255)%nat /\
+  labels_ok ls /\ (length (wire_of_labels ls) <= 255)%nat /\
   exists p, encode_dns_query 4660 256 (wire_of_labels ls) 1 = Ok p /\ len p = 33%nat.
 Proof. exact dnsquery_rt_ex. Qed.
 Print Assumptions C03_dnsquery_rt_ex.
+
+Example C03_dnsquery_root_ex :
+  exists p, encode_dns_query 1 256 (wire_of_labels []) 1 = Ok p /\ len p = 17%nat /\
+            (q <- dns_decode_question p ;; Ok (q_labels q, q_type q, q_class q, q_end q))%res = Ok ([], 1, 1, 17%nat).
+Proof. exact dnsquery_root_ex. Qed.
+Print Assumptions C03_dnsquery_root_ex.
 
 (* Bytes beyond the inner length fields.  A small IPv4/UDP packet is built in its own buffer and
    finished with Ether.AppendPayload, which pads the frame to the 60-byte minimum: the Ethernet
@@ -499,3 +496,81 @@ Theorem C03_dhcp4_fixed_rt : forall b opcode mt chaddr ci yi xid bc options orde
     dhcp_chaddr p = Ok (dhcp_ch6 old chaddr) /\ dhcp_cookie p = Ok COOKIE.
 Proof. exact dhcp4_fixed_rt. Qed.
 Print Assumptions C03_dhcp4_fixed_rt.
+
+(* the IPv4/ICMP-echo packet padded by Ether.AppendPayload: as C03_padded_frame_rt, with EchoData() *)
+Theorem C03_padded_echo_frame_rt : forall b smac dmac ttl sip dip t code id sq data,
+
+  (60 <= cap b)%nat -> (42 + length data <= cap b)%nat -> length smac = 6%nat -> length dmac = 6%nat ->
+  is4 sip = true -> is4 dip = true -> 42 + N.of_nat (length data) < 65536 ->
+  bytes_ok smac -> bytes_ok dmac -> bytes_ok sip -> bytes_ok dip -> bytes_ok data ->
+  ttl < 256 -> t < 256 -> code < 256 -> id < 65536 -> sq < 65536 -> N.land (nth 0 smac 0) 1 = 0 ->
+  let eb := echo_bytes t code id sq data in
+  let P := packet4_bytes ttl 1 sip dip eb in
+  exists f,
+    ether_wrap4 b smac dmac (packet_echo4 ttl sip dip t code id sq data) = Ok f /\
+    len f = Nat.max 60 (42 + length data) /\ cap f = cap b /\
+    view f = ether_hdr dmac smac ETH_P_IP ++ pad46 P /\
+    parse_class f = Ok (PayloadICMP4, false) /\
+    ref_ether (view f) = Some {| re_dst := dmac; re_src := smac; re_type := ETH_P_IP; re_payload := pad46 P |} /\
+    ref_ip4 (pad46 P) = Some (ip4_expected_ref ttl 1 sip dip eb) /\
+    ref_echo eb = Some (echo_expected_ref t code id sq data) /\
+    (ipv <- ether_payload f ;; Ok (len ipv))%res = Ok (Nat.max 46 (28 + length data)) /\
+    (ipv <- ether_payload f ;; ip4_decode_lib ipv)%res = Ok (ip4_expected_view ttl 1 sip dip eb) /\
+    (ipv <- ether_payload f ;; u <- ip4_payload ipv ;; Ok (len u))%res = Ok (8 + length data)%nat /\
+    (ipv <- ether_payload f ;; u <- ip4_payload ipv ;; echo_decode_lib u)%res = Ok (echo_expected_view t code id sq data).
+Proof. exact pad4e_rt. Qed.
+Print Assumptions C03_padded_echo_frame_rt.
+
+(* DHCP4.IsValid() of every message EncodeDHCP4 produces (same domain as C03_dhcp4_rt): nil error iff the opcode is BootRequest or BootReply *)
+Theorem C03_dhcp4_is_valid : forall b opcode mt chaddr ci yi xid bc options order perm,
+
+  (300 <= cap b)%nat ->
+  match chaddr with Some m => length m = 6%nat | None => True end ->
+  match xid with Some x => length x = 4%nat | None => True end ->
+  let o' := set_opt 53 [mt] options in
+  nodup options -> opts_ok o' -> (241 + osize o' <= cap b)%nat ->
+  exists p,
+    encode_dhcp4 b opcode mt chaddr ci yi xid bc options order perm = Ok p /\
+    dhcp_is_valid p = Ok ((opcode =? 1) || (opcode =? 2)).
+Proof. exact dhcp4_is_valid. Qed.
+Print Assumptions C03_dhcp4_is_valid.
+
+(* AppendPayload with the buffer as part of the result: ErrPayloadTooBig exactly when the payload exceeds the remaining capacity, and then the storage is returned unchanged *)
+Theorem C03_ip4_append_unchanged : forall p b proto,
+
+  fst (ip4_append_st p b proto) = ip4_append p b proto /\
+  ((cap p - len p < length b)%nat <-> ip4_append_st p b proto = (Err EPayloadTooBig, arr p)) /\
+  (fst (ip4_append_st p b proto) = Err EPayloadTooBig -> snd (ip4_append_st p b proto) = arr p).
+Proof. exact ip4_append_st_too_big. Qed.
+Print Assumptions C03_ip4_append_unchanged.
+
+
+Theorem C03_udp_append_unchanged : forall p b,
+
+  fst (udp_append_st p b) = udp_append p b /\
+  ((cap p - len p < length b)%nat <-> udp_append_st p b = (Err EPayloadTooBig, arr p)) /\
+  (fst (udp_append_st p b) = Err EPayloadTooBig -> snd (udp_append_st p b) = arr p).
+Proof. exact udp_append_st_too_big. Qed.
+Print Assumptions C03_udp_append_unchanged.
+
+(* IPv6 rejects a nil payload as well *)
+Theorem C03_ip6_append_unchanged : forall p b isnil nh,
+
+  fst (ip6_append_st p b isnil nh) = ip6_append p b isnil nh /\
+  ((isnil = true \/ (cap p - len p < length b)%nat) <-> ip6_append_st p b isnil nh = (Err EPayloadTooBig, arr p)) /\
+  (fst (ip6_append_st p b isnil nh) = Err EPayloadTooBig -> snd (ip6_append_st p b isnil nh) = arr p).
+Proof. exact ip6_append_st_too_big. Qed.
+Print Assumptions C03_ip6_append_unchanged.
+
+
+Theorem C03_ether_append_unchanged : forall p payload pcap,
+
+  fst (ether_append_st p payload pcap) = ether_append p payload pcap /\
+  ((cap p < length payload + 14)%nat <-> ether_append_st p payload pcap = (Err EPayloadTooBig, arr p)) /\
+  (fst (ether_append_st p payload pcap) = Err EPayloadTooBig -> snd (ether_append_st p payload pcap) = arr p).
+Proof. exact ether_append_st_too_big. Qed.
+Print Assumptions C03_ether_append_unchanged.
+
+Theorem C03_ip6_append_nil_rejected : forall p nh, ip6_append_st p [] true nh = (Err EPayloadTooBig, arr p).
+Proof. exact ip6_append_nil_rejected. Qed.
+Print Assumptions C03_ip6_append_nil_rejected.
